@@ -78,7 +78,8 @@ def flowMainArg : List (Str × Str) := pairsS
   [("send_message", "mainarg_message_text"), ("save_value", "mainarg_value"),
    ("add_to_group", "mainarg_groups"), ("remove_from_group", "mainarg_groups"),
    ("save_flow_result", "mainarg_value"), ("wait_for_response", "mainarg_none"),
-   ("add_contact_urn", "mainarg_value"), ("set_contact_language", "mainarg_value"),
+   ("add_contact_urn", "mainarg_value"), ("set_contact_channel", "mainarg_value"),
+   ("set_contact_language", "mainarg_value"),
    ("set_contact_name", "mainarg_value"), ("set_contact_status", "mainarg_value"),
    ("set_contact_timezone", "mainarg_value"), ("split_random", "mainarg_none"),
    ("go_to", "mainarg_destination_row_ids"), ("call_webhook", "webhook.body"),
